@@ -10,7 +10,9 @@ use vh::runner::*;
 
 /// the three files live in different directories, so that a relative import means something
 /// different depending on which file holds it
-pub const FILES: [&str; 3] = ["/p/f1.graphql", "/p/d/f2.graphql", "/p/d/e/f3.graphql"];
+/// The fourth name is a non-normalised spelling: the loader identifies files by the strings it is given
+/// (used by the random-long campaign and the libFuzzer target only, `n_files = 4`).
+pub const FILES: [&str; 4] = ["/p/f1.graphql", "/p/d/f2.graphql", "/p/d/e/f3.graphql", "/p/x/../d/./f2b.graphql"];
 pub const SOURCES: [&str; 6] = [
     "query A { a }\n",
     "#import F2 from \"./d/f2.graphql\"\nquery B { ...F2 }\n",
@@ -403,7 +405,7 @@ pub fn run(env: &Env) -> i32 {
             Ok(())
         });
     }
-    let big = alphabet(4, 3, &[0, 1, 2, 3, 4, 5], &[0, 1, 2, 3, 4, 5], true);
+    let big = alphabet(4, 4, &[0, 1, 2, 3, 4, 5], &[0, 1, 2, 3, 4, 5], true);
     rep.campaign("random-long", env.cases(20_000, 600_000), (2, 45), move |case| {
         let n = case.ch.range(1, 40);
         let h: Vec<Op> = (0..n).map(|_| *case.ch.pick(&big)).collect();
